@@ -522,6 +522,46 @@ func init() {
 	RegisterImpl("C17.b64_roundtrip", func(a [][]byte) ([][]byte, []byte) {
 		return a, B(c17B64Decode(spec.Base64Bytes(a[0]).Encode()) + "," + c17B64Decode(base64.RawURLEncoding.EncodeToString(a[0])))
 	})
+	// [bytes]: the round trip made into a variable that ALREADY holds a decoded value which the
+	// caller kept (a copy of the struct, an element appended to a list): values are immutable in
+	// the model, so decoding into the variable again must leave the value decoded before intact
+	RegisterImpl("C17.b64_sequence", func(a [][]byte) ([][]byte, []byte) {
+		earlier := bytes.Repeat([]byte{0xA5, 0x5A, 0x0F}, len(a[0])/3+4)
+		var out []string
+		for _, url := range []bool{false, true} {
+			enc := spec.Base64Bytes(a[0]).Encode()
+			if url {
+				enc = base64.RawURLEncoding.EncodeToString(a[0])
+			}
+			var holder struct {
+				V spec.Base64Bytes `json:"v"`
+			}
+			for step, how := range []string{"decode", "json", "scan"} {
+				if err := holder.V.Decode(spec.Base64Bytes(earlier).Encode()); err != nil {
+					return a, B("err")
+				}
+				kept := holder.V // what a caller holds on to
+				var err error
+				switch how {
+				case "decode":
+					err = holder.V.Decode(enc)
+				case "json":
+					err = json.Unmarshal([]byte(`{"v":"`+enc+`"}`), &holder)
+				case "scan":
+					err = holder.V.Scan(enc)
+				}
+				if !bytes.Equal(kept, earlier) {
+					return a, B(fmt.Sprintf("EARLIER-VALUE-OVERWRITTEN by %s (step %d)", how, step))
+				}
+				if how == "decode" {
+					out = append(out, c17Decoded(holder.V, err))
+				} else if c17Decoded(holder.V, err) != out[len(out)-1] {
+					return a, B("decode paths differ: " + how)
+				}
+			}
+		}
+		return a, B(strings.Join(out, ","))
+	})
 	RegisterImpl("C17.sender", func(a [][]byte) ([][]byte, []byte) {
 		s := spec.SenderID(a[0])
 		if s.IsUserID() {
@@ -564,6 +604,10 @@ func init() {
 		if p != nil && !bytes.Equal(p.JSON(), a[1]) {
 			return a, B("precondition-violated: the event was rewritten (" + c17Verdict(err) + ")")
 		}
+		if ve, ok := err.(gmsl.EventValidationError); ok && ve.Persistable && p == nil {
+			// "too large but persistable" is reported so that the caller can keep the event
+			return a, B("toolarge-persistable-without-event")
+		}
 		return a, B(c17Verdict(err))
 	})
 	// [version; type; has_sk; sk; sender; room; total length wanted ("" = as is) -> actual length]
@@ -589,6 +633,9 @@ func init() {
 		final[6] = B("0")
 		if p != nil {
 			final[6] = B(strconv.Itoa(len(p.JSON())))
+		}
+		if ve, ok := err.(gmsl.EventValidationError); ok && ve.Persistable && p == nil {
+			return final, B("toolarge-persistable-without-event")
 		}
 		return final, B(c17Verdict(err))
 	})
